@@ -176,6 +176,10 @@ def judge(r, nbytes):
 
 def run_case(sc, tool, data, opts=(), timeout=None, keep=False):
     p = sc.put("i%d_%d.exp" % (os.getpid(), sc.n), data)
+    if b"@@SELF@@" in data:
+        # a file may INCLUDE existing files - the only one a generated case can name is itself
+        with open(p, "wb") as fh:
+            fh.write(data.replace(b"@@SELF@@", p.encode()))
     d = sc.fresh("w")
     args = list(opts) + ([p] if tool != "exppp" or "-o" in opts else ["-o", "out.exp", p])
     # termination is judged on CPU time (polled from /proc): the wall-clock guard only protects the campaign and is never a verdict
